@@ -365,6 +365,8 @@ def run_programs_c13(sc):
 def main():
     ctx = vlib.Ctx('C13')
     vlib.proof_phase(ctx, extra_targets=['Extract/ExtractCodec.vo'])
+    # the decoder's control flow as translated from decode.hpp on this run (Gen/GenDec.v): it IS Codec.decode
+    vlib.proof_phase_extra(ctx, 'Properties_C13_source')
     K = consts()
     mdl, drv = base.build_binaries(ctx)
     if ctx.replay:
